@@ -1430,4 +1430,156 @@ theorem waveTail_minmax_edges (bins : List K) (x1 x2 : K)
 
 end
 
+
+/-! ### `np.argmin(np.abs(·))` really is a minimiser, hence the fractional index is the geometric one -/
+
+theorem argminAbsAux_spec (t : List K) : ∀ (i best : Nat) (bv : K),
+    (argminAbsAux t i best bv = best ∧ ∀ y ∈ t, bv ≤ |y|) ∨
+    (∃ j, j < t.length ∧ argminAbsAux t i best bv = i + j ∧ |t.getD j 0| ≤ bv ∧ ∀ y ∈ t, |t.getD j 0| ≤ |y|) := by
+  induction t with
+  | nil => intro i best bv; left; simp [argminAbsAux]
+  | cons x t ih =>
+    intro i best bv
+    simp only [argminAbsAux]
+    by_cases hx : |x| < bv
+    · rw [if_pos hx]
+      right
+      rcases ih (i + 1) i |x| with ⟨h1, h2⟩ | ⟨j, hj, h1, h2, h3⟩
+      · refine ⟨0, by simp, by simpa using h1, by simpa using le_of_lt hx, ?_⟩
+        intro y hy
+        rcases List.mem_cons.mp hy with rfl | hy
+        · simp
+        · simpa using h2 y hy
+      · refine ⟨j + 1, by simp; omega, by rw [h1]; omega, ?_, ?_⟩
+        · simp only [List.getD_cons_succ]; linarith
+        · intro y hy
+          simp only [List.getD_cons_succ]
+          rcases List.mem_cons.mp hy with rfl | hy
+          · exact h2
+          · exact h3 y hy
+    · rw [if_neg hx]
+      rw [not_lt] at hx
+      rcases ih (i + 1) best bv with ⟨h1, h2⟩ | ⟨j, hj, h1, h2, h3⟩
+      · left
+        refine ⟨h1, ?_⟩
+        intro y hy
+        rcases List.mem_cons.mp hy with rfl | hy
+        · exact hx
+        · exact h2 y hy
+      · right
+        refine ⟨j + 1, by simp; omega, by rw [h1]; omega, ?_, ?_⟩
+        · simpa only [List.getD_cons_succ] using h2
+        · intro y hy
+          simp only [List.getD_cons_succ]
+          rcases List.mem_cons.mp hy with rfl | hy
+          · linarith
+          · exact h3 y hy
+
+theorem argminAbs_min (l : List K) : ∀ y ∈ l, |l.getD (argminAbs l) 0| ≤ |y| := by
+  cases l with
+  | nil => intro y hy; simp at hy
+  | cons x t =>
+    intro y hy
+    simp only [argminAbs]
+    rcases argminAbsAux_spec t 1 0 |x| with ⟨h1, h2⟩ | ⟨j, hj, h1, h2, h3⟩
+    · rw [h1]
+      rcases List.mem_cons.mp hy with rfl | hy
+      · simp
+      · simpa using h2 y hy
+    · rw [h1]
+      have e : (x :: t).getD (1 + j) 0 = t.getD j 0 := by
+        rw [Nat.add_comm]; simp
+      rw [e]
+      rcases List.mem_cons.mp hy with rfl | hy
+      · exact h2
+      · exact h3 y hy
+
+theorem getD_mem_of_lt (l : List K) (j : Nat) (hj : j < l.length) : l.getD j 0 ∈ l := by
+  rw [List.getD_eq_getElem?_getD, List.getElem?_eq_getElem hj]
+  exact List.getElem_mem _
+
+/-- the fractional index computed by `wave_range` is the geometric pixel coordinate of the centre:
+`i + (cen - bins[i]) / (bins[i+1] - bins[i])` for a pair of neighbouring centres that bracket it -/
+theorem fracIndex_spec (bins : List K) (h : StrictAsc bins) (h2 : 2 ≤ bins.length) (cen : K)
+    (hc1 : bins.getD 0 0 ≤ cen) (hc2 : cen ≤ bins.getD (bins.length - 1) 0) :
+    ∃ i : Nat, i + 1 < bins.length ∧ bins.getD i 0 ≤ cen ∧ cen ≤ bins.getD (i + 1) 0 ∧
+      fracIndex bins cen = .ok ((i : K) + (cen - bins.getD i 0) / (bins.getD (i + 1) 0 - bins.getD i 0)) := by
+  unfold fracIndex
+  simp only []
+  have hlen : (bins.map (fun x => cen - x)).length = bins.length := by simp
+  have hk := argminAbs_lt (bins.map (fun x => cen - x)) (by omega)
+  have hmin : ∀ j, j < bins.length →
+      |(bins.map (fun x => cen - x)).getD (argminAbs (bins.map (fun x => cen - x))) 0| ≤ |cen - bins.getD j 0| := by
+    intro j hj
+    apply argminAbs_min
+    rw [List.mem_map]
+    exact ⟨bins.getD j 0, getD_mem_of_lt bins j hj, rfl⟩
+  generalize argminAbs (bins.map (fun x => cen - x)) = k at hk hmin
+  rw [hlen] at hk
+  rw [getD_map_of_lt _ bins k hk 0 0] at hmin
+  rw [pyIndex_nat _ k (by omega) 0, getD_map_of_lt _ bins k hk 0 0]
+  simp only [ok_bind]
+  by_cases hd : cen - bins.getD k 0 < 0
+  · rw [if_pos hd]
+    have hk0 : 1 ≤ k := by
+      rcases Nat.eq_zero_or_pos k with h0 | h0
+      · subst h0; linarith
+      · exact h0
+    have hlt := strictAsc_getD_lt bins h (k - 1) k (by omega) hk 0
+    rw [pyIndex_nat bins k hk 0, pyIndex_pred bins k hk0 (by omega) 0]
+    simp only [ok_bind]
+    rw [divE_ok _ _ (by intro h0; linarith)]
+    have hbr : bins.getD (k - 1) 0 ≤ cen := by
+      by_contra hc
+      rw [not_le] at hc
+      have := hmin (k - 1) (by omega)
+      rw [abs_of_neg hd, abs_of_neg (by linarith)] at this
+      linarith
+    obtain ⟨m, rfl⟩ : ∃ m, k = m + 1 := ⟨k - 1, by omega⟩
+    simp only [Nat.add_sub_cancel] at hlt hbr ⊢
+    refine ⟨m, hk, hbr, by linarith, ?_⟩
+    simp only [ok_bind, pure_eq]
+    congr 1
+    have hne : bins.getD (m + 1) 0 - bins.getD m 0 ≠ 0 := by intro h0; linarith
+    push_cast
+    field_simp
+    ring
+  · rw [if_neg hd]
+    by_cases hd2 : cen - bins.getD k 0 > 0
+    · rw [if_pos hd2]
+      have hk1 : k + 1 < bins.length := by
+        by_contra hc
+        have : k = bins.length - 1 := by omega
+        rw [this] at hd2
+        linarith
+      have hlt := strictAsc_getD_lt bins h k (k + 1) (by omega) hk1 0
+      have e : ((k : Int) + 1) = ((k + 1 : Nat) : Int) := by push_cast; ring
+      rw [e, pyIndex_nat bins (k + 1) hk1 0, pyIndex_nat bins k hk 0]
+      simp only [ok_bind]
+      rw [divE_ok _ _ (by intro h0; linarith)]
+      have hbr : cen ≤ bins.getD (k + 1) 0 := by
+        by_contra hc
+        rw [not_le] at hc
+        have := hmin (k + 1) hk1
+        rw [abs_of_pos hd2, abs_of_pos (by linarith)] at this
+        linarith
+      refine ⟨k, hk1, by linarith, hbr, ?_⟩
+      simp only [ok_bind, pure_eq, Int.cast_natCast]
+    · rw [if_neg hd2]
+      have heq : cen = bins.getD k 0 := by
+        rw [not_lt] at hd hd2; linarith
+      by_cases hk1 : k + 1 < bins.length
+      · refine ⟨k, hk1, le_of_eq heq.symm, ?_, ?_⟩
+        · have := strictAsc_getD_lt bins h k (k + 1) (by omega) hk1 0; linarith
+        · simp only [pure_eq, Int.cast_natCast]; congr 1; rw [heq]; simp
+      · obtain ⟨m, rfl⟩ : ∃ m, k = m + 1 := ⟨k - 1, by omega⟩
+        have hlt := strictAsc_getD_lt bins h m (m + 1) (by omega) hk 0
+        refine ⟨m, hk, by linarith, le_of_eq heq, ?_⟩
+        simp only [pure_eq, Int.cast_natCast]
+        congr 1
+        have hne : bins.getD (m + 1) 0 - bins.getD m 0 ≠ 0 := by intro h0; linarith
+        rw [heq, div_self hne]
+        push_cast
+        ring
+
 end Synphot
